@@ -256,6 +256,14 @@ def evaluate(rng, tier, judge, n_quick=150, n_thorough=1500, runs=3, cli_share=0
         r_via = hrng.random()
         via = "cli" if r_via < cli_share else "main" if r_via < cli_share + main_share else "api"
         plans.append((via, L.gen_history_scenario(hrng, via=via, runs=runs)))
+    # the kind-set history stratum (1 in 10 scenarios more, from a generator of its own): the truth stays, the SET of kinds given
+    # varies from run to run (all three / the truth and one other kind, with and without the argparse target), truths with a
+    # return entry included (`-> None` with a documented `:returns:` among them)
+    srng = random.Random(rng.random())
+    for j in range(max(6, n // 10)):
+        r_via = srng.random()
+        via = "cli" if r_via < cli_share else "main" if r_via < cli_share + main_share else "api"
+        plans.append((via, L.gen_kindset_history_scenario(srng, via=via, runs=runs)))
     for via, scn in plans:
         if via == "cli":
             # run through the command line for the judged behaviour, and once more through the API (same scenario,
@@ -277,7 +285,11 @@ def evaluate(rng, tier, judge, n_quick=150, n_thorough=1500, runs=3, cli_share=0
             hist["recorded-finding-shape:%s" % scn["known_shape"]] += 1
         hist["via:%s" % via] += 1
         hist["given:%d" % len(scn["given"])] += 1
-        if scn.get("alternate"):
+        if scn.get("alternate_given"):
+            hist["history:kind-set-varies:%d-more-runs:returns-%s:%s" % (
+                len(scn["alternate"]), scn.get("returns_form") or ("typed-default" if scn.get("with_returns") else "none"),
+                "judged" if J.history_settled(res) else "not-settled-after-first-run")] += 1
+        elif scn.get("alternate"):
             hist["history:truth-kind-alternates:%d-more-runs:%s" % (len(scn["alternate"]), "judged" if J.history_settled(res) else
                                                                    "not-settled-after-first-run")] += 1
         if scn.get("prose_special"):
@@ -354,8 +366,10 @@ def evaluate(rng, tier, judge, n_quick=150, n_thorough=1500, runs=3, cli_share=0
                     "a definition of the target's simple name below the top level (method / nested class / nested function), sibling "
                     "definitions whose docstrings hold tabs inside lines, %, braces, backslashes, prose with %, braces, backslashes, "
                     "target files of zero statements (blank lines / comments only), histories in which the KIND named as truth "
-                    "alternates after the regular runs while no file is edited; "
-                    "plus 1 in 25 scenarios more that carry the shape of a recorded finding, plus 1 in 8 more of the history stratum); "
+                    "alternates after the regular runs while no file is edited, histories in which the SET of kinds given varies "
+                    "(all three / the truth and one other) for truths with and without a return entry (`-> None` with a documented "
+                    "`:returns:` included); "
+                    "plus 1 in 25 scenarios more that carry the shape of a recorded finding, plus 1 in 8 more of the history stratum, plus 1 in 10 more of the kind-set history stratum); "
                     "non-trivial = distinct scenario shape with at least one target on which the property held",
             "failures": failures, "histogram": dict(hist), "samples": samples}
 
